@@ -79,7 +79,7 @@ class _FnCodec:
         return self.rc.decode_item(d, data, boxed)
 
 
-def run_schema(ctx, idx, config="tl2all", values=25, fills=25, mutations=4, label="c11", tl2=False):
+def run_schema(ctx, idx, config="tl2all", values=25, fills=25, mutations=4, label="c11", tl2=False, tl2alt=False, report=None):
     """one random schema: generate, build, compare. Returns counters dict or None when the generator rejected the schema."""
     s = schemagen.generate(ctx.seed, "%s/%d" % (label, idx)) if idx >= 0 else schemagen.fixed_shapes()
     name = "rnd%s%d" % (label if label != "c11" else "", idx) if idx >= 0 else "fixed_shapes_" + label
@@ -124,6 +124,19 @@ def run_schema(ctx, idx, config="tl2all", values=25, fills=25, mutations=4, labe
                         cid = len(cases)
                         cases.append({"id": cid, "op": "T2", "decl": d, "data": data, "want": want2, "negzero": rc.saw_negative_zero})
                         lines.append("T2 %d %s 1 %s" % (cid, d.constructors[0].lname if d.kind in ("struct", "typedef") else d.uname, data.hex()))
+                    if want2 is not None and tl2alt and not rc.saw_negative_zero:
+                        # equal but non-canonical TL2 encodings of the same value: empty fields given explicitly, explicit zero masks, empty objects as 01 00 / 9-byte zero
+                        for ai in range(3):
+                            rc.alt2 = core.stream(ctx.seed, "%s-alt/%d/%s/%d/%d" % (label, idx, d.lname, vi, ai))
+                            try:
+                                alt = rc.encode_item_tl2(d, v)
+                            finally:
+                                rc.alt2 = None
+                            if alt == want2:
+                                continue
+                            cid = len(cases)
+                            cases.append({"id": cid, "op": "R2", "decl": d, "data": alt, "want": want2})
+                            lines.append("R2 %d %s %s" % (cid, d.constructors[0].lname if d.kind in ("struct", "typedef") else d.uname, alt.hex() or "-"))
                 for _ in range(mutations):
                     m, mk = mutate(r, data)
                     try:
@@ -161,6 +174,22 @@ def run_schema(ctx, idx, config="tl2all", values=25, fills=25, mutations=4, labe
             cnt["items_not_in_registry"] = cnt.get("items_not_in_registry", 0) + 1
             continue
         d = c["decl"]
+        if report is not None and c["op"] not in report:
+            continue  # this caller decides only some of the observations (the others belong to C11)
+        if c["op"] == "R2":
+            if ev.get("notl2") or ev.get("panic"):
+                continue
+            cnt["tl2_alternative_encodings"] = cnt.get("tl2_alternative_encodings", 0) + 1
+            if not ev.get("ok"):
+                viol("tl2-alternative-encoding-rejected", c, "generated TL2 reader rejects an equal, non-canonical encoding (explicit empties / zero masks): %s; canonical %s alternative %s" % (ev.get("err"), c["want"].hex()[:300], c["data"].hex()[:300]))
+            elif ev.get("rest") != 3:
+                viol("tl2-alternative-encoding-consumed-differently", c, "generated TL2 reader leaves %s bytes (3 expected) of an equal, non-canonical encoding; canonical %s alternative %s" % (ev.get("rest"), c["want"].hex()[:300], c["data"].hex()[:300]))
+            elif ev["tl2"] != c["want"].hex():
+                viol("tl2-alternative-encoding-different-value", c, "an equal, non-canonical TL2 encoding decodes to a different value: rewritten %s, canonical %s, alternative %s" % (ev["tl2"][:300], c["want"].hex()[:300], c["data"].hex()[:300]))
+            else:
+                cnt["agree_tl2_alternative"] = cnt.get("agree_tl2_alternative", 0) + 1
+                ctx.distinct("%d/%s/tl2alt" % (idx, d.lname))
+            continue
         if c["op"] == "T2":
             if ev.get("notl2") or ev.get("panic") or not ev.get("ok"):
                 continue
